@@ -2,7 +2,7 @@
 import ast
 from sa.index import AnalysisError, FuncInfo
 from sa.paths import call_name
-from rules.common import list_delegation, txt, paths_of, loc, tests_on, Quiet
+from rules.common import returned_values, list_delegation, txt, paths_of, loc, tests_on, Quiet
 from rules import onepass
 
 M = 'iterutils'
@@ -69,26 +69,32 @@ def run(ctx):
     # chunked
     f, g = prog.func(M + '.chunked'), prog.func(M + '.chunked_iter')
     src = ast.unparse(f.node)
-    calls = [n for n in ast.walk(f.node) if isinstance(n, ast.Call) and call_name(n) == 'chunked_iter']
-    ok = len(calls) == 1 and [txt(a) for a in calls[0].args] == ['src', 'size'] and [(k.arg, txt(k.value)) for k in calls[0].keywords] == [(None, 'kw')]
-    rets = [n for n in ast.walk(f.node) if isinstance(n, ast.Return)]
-    forms = sorted(txt(r.value) for r in rets)
-    ok = ok and len(rets) == 2 and all(t.startswith('list(') for t in forms) and any('islice(' in t and 'count' in t for t in forms)
+    # decided on the value returned by every path (locals and call results substituted back)
+    rv = returned_values(prog, f)
+    forms = sorted(txt(e) for e, _, _ in rv)
+    base = 'chunked_iter(src, size, **kw)'
+    ok = bool(rv) and all(t == 'list(%s)' % base or
+                          (t.startswith('list(') and 'islice(%s, count)' % base in t.replace('itertools.', '')) for t in forms) and \
+        any('islice(' in t for t in forms) and any(t == 'list(%s)' % base for t in forms)
     ctx.ob('T17', f.fq, 'chunked is list(chunked_iter(src, size, **kw)), cut to `count` chunks by islice when count is given', ok, loc=f.loc, detail=str(forms))
     for name, callee, args in (('pairwise', 'windowed', {'src': 'src', 'size': '2', 'fill': 'end'}),
                                ('pairwise_iter', 'windowed_iter', {'src': 'src', 'size': '2', 'fill': 'end'})):
         f, g = prog.func('%s.%s' % (M, name)), prog.func('%s.%s' % (M, callee))
-        rets = [n for n in ast.walk(f.node) if isinstance(n, ast.Return)]
-        ok = len(rets) == 1 and isinstance(rets[0].value, ast.Call) and call_name(rets[0].value) == callee and bound_args(rets[0].value, g) == args
-        ctx.ob('T17', f.fq, '%s is %s(src, 2, fill=end)' % (name, callee), ok, loc=f.loc)
+        rv = returned_values(prog, f)
+        ok = bool(rv) and all(isinstance(e, ast.Call) and call_name(e) == callee and bound_args(e, g) == args for e, _, _ in rv)
+        ctx.ob('T17', f.fq, '%s is %s(src, 2, fill=end)' % (name, callee), ok, loc=f.loc, detail=str([txt(e) for e, _, _ in rv]))
     f = prog.func(M + '.strip_iter')
-    rets = [n for n in ast.walk(f.node) if isinstance(n, ast.Return)]
-    ok = len(rets) == 1 and txt(rets[0].value) == 'rstrip_iter(lstrip_iter(iterable, strip_value), strip_value)'
-    ctx.ob('T17', f.fq, 'strip_iter is rstrip_iter(lstrip_iter(iterable, strip_value), strip_value)', ok, loc=f.loc)
+    rv = returned_values(prog, f)
+    ok = bool(rv) and all(txt(e) == 'rstrip_iter(lstrip_iter(iterable, strip_value), strip_value)' for e, _, _ in rv)
+    ctx.ob('T17', f.fq, 'strip_iter is rstrip_iter(lstrip_iter(iterable, strip_value), strip_value)', ok, loc=f.loc,
+           detail=str([txt(e) for e, _, _ in rv]))
     f = prog.func(M + '.partition')
-    src = ast.unparse(f.node)
-    ok = 'bucketize(src, key)' in src and 'get(True, [])' in src and 'get(False, [])' in src
-    ctx.ob('T17', f.fq, 'partition returns the True and False buckets of bucketize(src, key)', ok, loc=f.loc)
+    rv = returned_values(prog, f)
+    B = 'bucketize(src, key)'
+    ok = bool(rv) and all(isinstance(e, ast.Tuple) and [txt(x) for x in e.elts] == ['%s.get(True, [])' % B, '%s.get(False, [])' % B]
+                          for e, _, _ in rv)
+    ctx.ob('T17', f.fq, 'partition returns the True and False buckets of bucketize(src, key)', ok, loc=f.loc,
+           detail=str([txt(e) for e, _, _ in rv]))
     # T3
     for name, param in (('split_iter', 'src'), ('lstrip_iter', 'iterable'), ('rstrip_iter', 'iterable'), ('chunked_iter', 'src'),
                         ('windowed_iter', 'src'), ('unique_iter', 'src'), ('redundant', 'src'), ('bucketize', 'src')):
@@ -120,12 +126,16 @@ def run(ctx):
     nexts = [n for n in ast.walk(wi.node) if isinstance(n, ast.Call) and call_name(n) == 'next']
     if not nexts:
         ctx.unknown('T9.tees', wi.fq, 'no next(tee) advance found', wi.loc)
-    zl = [n for n in ast.walk(wi.node) if isinstance(n, ast.Return) and isinstance(n.value, ast.Call) and 'zip_longest' in call_name(n.value)]
+    zl = [n for n in ast.walk(wi.node) if isinstance(n, (ast.Return, ast.Assign)) and isinstance(n.value, ast.Call) and
+          'zip_longest' in call_name(n.value)]
     if zl:
         # the advance loop feeding zip_longest: the last `for ... in enumerate(tees)` before it
         zp = par.get(zl[0])
         blk = next((b for b in (getattr(zp, f, None) for f in ('body', 'orelse', 'finalbody')) if isinstance(b, list) and zl[0] in b), [])
-        loops = [n for n in blk if isinstance(n, ast.For) and 'tees' in txt(n.iter) and n.lineno < zl[0].lineno]
+        TEES = {t.id for n in ast.walk(wi.node) if isinstance(n, ast.Assign) and isinstance(n.value, ast.Call) and
+                call_name(n.value) in ('itertools.tee', 'tee') for t in n.targets if isinstance(t, ast.Name)}
+        loops = [n for n in blk if isinstance(n, ast.For) and n.lineno < zl[0].lineno and
+                 any(isinstance(x, ast.Name) and x.id in TEES for x in ast.walk(n.iter))]
         fill_loop = loops[-1] if loops else None
         ok = False
         det = 'no advance loop before zip_longest'
@@ -144,6 +154,16 @@ def run(ctx):
         ctx.unknown('T9.tees', wi.fq, 'no zip_longest(...) return found for the fill form', wi.loc)
     # split_iter
     sp = prog.func(M + '.split_iter')
+    # the split counter, by role: the local that is compared with the maxsplit parameter
+    COUNTERS = set()
+    for n in ast.walk(sp.node):
+        if isinstance(n, ast.Compare) and len(n.ops) == 1:
+            l, r = n.left, n.comparators[0]
+            for a, b in ((l, r), (r, l)):
+                if isinstance(a, ast.Name) and a.id == 'maxsplit' and isinstance(b, ast.Name) and b.id not in sp.params:
+                    COUNTERS.add(b.id)
+    if not COUNTERS:
+        ctx.unknown('T2.split', sp.fq, 'no local compared with maxsplit found (split counter)', sp.loc)
     w, paths = paths_of(prog, sp)
     seen_y = set()
     for p in paths:
@@ -171,7 +191,12 @@ def run(ctx):
         bounds = [o.seq for o in ops if o.kind == 'iter_next'] + [10 ** 9]
         for a, b in zip(bounds, bounds[1:]):
             seg = [o for o in ops if a < o.seq < b]
-            incs = [o for o in seg if o.kind == 'aug' and txt(o.node.target) == 'split_count']
+            # an increment: `c += n`, or `c = <old c> + n` (a store of a sum into the counter; the initialisation stores a constant)
+            incs = [o for o in seg if (o.kind == 'aug' and txt(o.node.target) in COUNTERS) or
+                    (o.kind == 'name_store' and isinstance(o.node, ast.Name) and o.node.id in COUNTERS and
+                     isinstance(o.val, ast.BinOp) and isinstance(o.val.op, ast.Add))]
+            _seen_ln = set()
+            incs = [o for o in incs if not (o.line in _seen_ln or _seen_ln.add(o.line))]      # `c += n` shows up as aug + store
             ys = [o for o in seg if o.kind == 'yield']
             last = b == 10 ** 9
             if incs or (ys and not last):
@@ -180,14 +205,45 @@ def run(ctx):
                        ok, loc=loc(sp, (incs + ys)[0].node), path=p.describe() if not ok else None)
     # chunk_ranges: every yielded end is clamped
     cr = prog.func(M + '.chunk_ranges')
+    def is_stop_expr(e):
+        return isinstance(e, ast.BinOp) and isinstance(e.op, ast.Add) and {txt(e.left), txt(e.right)} == {'input_offset', 'input_size'}
+    # the end of the input, by role: a local assigned once, before any rebinding of input_offset, from input_offset + input_size
+    STOPS = set()
+    # (a validating rebind `input_offset = check(input_offset, ...)` keeps the value and does not count)
+    rebinds = [n.lineno for n in ast.walk(cr.node) if isinstance(n, ast.Assign) and any(txt(t) == 'input_offset' for t in n.targets)
+               and not (isinstance(n.value, ast.Call) and any(txt(a) == 'input_offset' for a in n.value.args))]
+    rebinds += [n.lineno for n in ast.walk(cr.node) if isinstance(n, ast.AugAssign) and txt(n.target) == 'input_offset']
+    for n in ast.walk(cr.node):
+        if isinstance(n, ast.Assign) and len(n.targets) == 1 and isinstance(n.targets[0], ast.Name) and is_stop_expr(n.value) and \
+                all(n.lineno < ln for ln in rebinds):
+            nm = n.targets[0].id
+            if sum(1 for x in ast.walk(cr.node) if isinstance(x, ast.Name) and x.id == nm and isinstance(x.ctx, ast.Store)) == 1:
+                STOPS.add(nm)
+
+    def is_stop(e):
+        return (isinstance(e, ast.Name) and e.id in STOPS) or (is_stop_expr(e) and not rebinds)
+    n_end = 0
     for n in ast.walk(cr.node):
         if isinstance(n, ast.Yield) and isinstance(n.value, ast.Tuple) and len(n.value.elts) == 2:
             end = n.value.elts[1]
             t = txt(end)
-            ok = (isinstance(end, ast.Call) and call_name(end) == 'min' and 'input_stop' in [txt(a) for a in end.args]) or t == 'input_stop'
-            ctx.ob('T7.end', cr.fq, 'yielded range end `%s` is clamped to input_stop' % t, ok, loc=loc(cr, n))
+            n_end += 1
+            ok = (isinstance(end, ast.Call) and call_name(end) == 'min' and any(is_stop(a) for a in end.args)) or is_stop(end)
+            ctx.ob('T7.end', cr.fq, 'yielded range end `%s` is clamped to the end of the input (input_offset + input_size)' % t, ok,
+                   loc=loc(cr, n), detail='names holding the input end: %s' % sorted(STOPS))
+    if n_end == 0:
+        ctx.unknown('T7.end', cr.fq, 'no yield of a (start, end) pair found', cr.loc)
     # chunked_iter: fill consulted before every yield
     ci = prog.func(M + '.chunked_iter')
+    # names that carry "was fill given / what is it", by role: everything bound by the statement that reads the 'fill' option
+    FILLS = set()
+    for n in ast.walk(ci.node):
+        if isinstance(n, (ast.Try, ast.Assign, ast.If)) and any(isinstance(c, ast.Constant) and c.value == 'fill' for c in ast.walk(n)):
+            stmts = [n] if not isinstance(n, ast.If) else [n]
+            for st in stmts:
+                FILLS |= {x.id for x in ast.walk(st) if isinstance(x, ast.Name) and isinstance(x.ctx, ast.Store)}
+    if not FILLS:
+        ctx.unknown('T7.fill', ci.fq, "no statement reading the 'fill' option found", ci.loc)
     w, paths = paths_of(prog, ci)
     n_y = 0
     for p in paths:
@@ -198,9 +254,22 @@ def run(ctx):
                 start = max([x.seq for x in ops if x.kind in ('loop_iter', 'iter_next') and x.seq < o.seq] or [-1])
                 seg = [x for x in ops if start < x.seq < o.seq and x.kind == 'test']
                 # either the fill flag was consulted, or the chunk was found to be full (`len < size` false: nothing to pad)
-                ok = any('fill' in txt(x.node) for x in seg) or \
-                    any(isinstance(x.node, ast.Compare) and 'size' in txt(x.node) and isinstance(x.node.ops[0], (ast.Lt, ast.Gt, ast.GtE, ast.LtE, ast.Eq, ast.NotEq))
-                        and x.info is (False if isinstance(x.node.ops[0], (ast.Lt, ast.NotEq)) else True) for x in seg)
+                def chunk_full(x):
+                    # a comparison of the chunk length with `size` whose outcome on this path says "not shorter than size"
+                    n = x.node
+                    if not (isinstance(n, ast.Compare) and len(n.ops) == 1):
+                        return False
+                    l, r, op = txt(n.left), txt(n.comparators[0]), type(n.ops[0])
+                    if r != 'size' and l == 'size':
+                        op = {ast.Lt: ast.Gt, ast.Gt: ast.Lt, ast.LtE: ast.GtE, ast.GtE: ast.LtE}.get(op, op)
+                    elif r != 'size':
+                        return False
+                    if op in (ast.Lt, ast.NotEq):
+                        return x.info is False
+                    if op in (ast.GtE, ast.Eq):
+                        return x.info is True
+                    return False
+                ok = any(FILLS & {y.id for y in ast.walk(x.node) if isinstance(y, ast.Name)} for x in seg) or any(chunk_full(x) for x in seg)
                 ctx.ob('T7.fill', ci.fq, 'every chunk is yielded only after the fill flag was consulted for it (all source types padded alike)',
                        ok, loc=loc(ci, o.node), path=p.describe() if not ok else None)
     if n_y == 0:
